@@ -86,7 +86,7 @@ const char* const DICT[] = {"", "a", "Scene Root", "Tangent space (binormal & ta
 const int NDICT = 12;   // the 13th entry is only used by tests that want a duplicate
 
 // ------------------------------------------------------------------------------------------------ Gen
-void Gen::Field(bool reading, FieldKind k, size_t sz, void* addr, const std::type_info*) {
+void Gen::Field(bool reading, FieldKind k, size_t sz, void* addr, const std::type_info* ti) {
 	if (!reading) return;
 	fieldEvents++;
 	// a Count/StrLen/Half/ref announcement is followed by the generic Sync<T> announcement of the same bytes: keep the specific one
@@ -95,6 +95,7 @@ void Gen::Field(bool reading, FieldKind k, size_t sz, void* addr, const std::typ
 	kind = k;
 	hsize = sz;
 	lastAddr = addr;
+	lastType = ti;
 }
 
 void Gen::BlockRef(bool reading, NiRef* r, const std::type_info* t, std::streamsize) {
@@ -186,6 +187,11 @@ void Gen::fill(char* s, size_t n) {
 			case FieldKind::Enum: {
 				// small values dominate, but sparse enums (e.g. hkConstraintType 0,1,2,6,7,8) need the upper ones as well
 				uint64_t c = rng.below(3) ? rng.below(4) : rng.below(10);
+				if (lastType && *lastType == typeid(hkConstraintType)) {
+					// every defined sub-constraint layout equally often, plus the occasional undefined value
+					static const uint32_t V[] = {0, 1, 2, 6, 7, 8, 3};
+					c = V[rng.below(rng.below(8) ? 6 : 7)];
+				}
 				put(&c, n, o);
 				return;
 			}
